@@ -26,10 +26,11 @@ OUTSIDE = ("the histories quantifier (interleavings of updates with live choice 
 
 
 def mpost(results):
-    from vlib.mirsmt import c09, idxorder
+    from vlib.mirsmt import c09, c09stamps, idxorder
     from vlib.common import EXIT_VIOLATION, EXIT_INCONCLUSIVE
     r1 = c09.run()
     r2 = idxorder.run(prop="C09")
+    r3 = c09stamps.run()
     out = dict(r1)
     out["evaluations"] = r1.get("evaluations", 0) + r2.get("evaluations", 0)
     out["distinct_nontrivial"] = r1.get("distinct_nontrivial", 0) + r2.get("distinct_nontrivial", 0)
@@ -37,7 +38,13 @@ def mpost(results):
     out["mirsmt_regions"] = r1.get("mirsmt_regions", []) + r2.get("mirsmt_regions", [])
     if "mirsmt_violations" in r2:
         out.setdefault("mirsmt_violations", []).extend(r2["mirsmt_violations"])
-    ex = [r.get("exit", 0) for r in (r1, r2)]
+    for k in ("evaluations", "distinct_nontrivial"):
+        out[k] += r3.get(k, 0)
+    out["samples"] = out["samples"] + r3.get("samples", [])
+    out["mirsmt_regions"] = out["mirsmt_regions"] + r3.get("mirsmt_regions", [])
+    if "mirsmt_violations" in r3:
+        out.setdefault("mirsmt_violations", []).extend(r3["mirsmt_violations"])
+    ex = [r.get("exit", 0) for r in (r1, r2, r3)]
     out["exit"] = EXIT_VIOLATION if EXIT_VIOLATION in ex else (EXIT_INCONCLUSIVE if EXIT_INCONCLUSIVE in ex else 0)
     return out
 
